@@ -122,7 +122,52 @@ def correspond(ctx):
         for k, W in enumerate(seen):
             evals += 1
             check_W(ctx, cvxopt, W, None, None, None, dims, 'coneqp' if qp else 'conelp', k)
-    ctx.cov.update({'evaluations': evals, 'distinct_nontrivial': len(distinct),
+    # ---- the same for the nonlinear solver: cpl saves its state (scaling included) when a full step gives insufficient decrease and may later
+    # resume from it; badly scaled problems with a quartic constraint, an LMI ('s' block), optionally a second-order cone and linear inequalities
+    from cvxopt import spdiag
+    ncpl = 40 if ctx.quick() else 600
+    restores = 0
+    for it in range(ncpl):
+        n = 3; ms = rng.choice([2, 3]); mq = rng.choice([0, 0, 3]); ml = rng.choice([0, 2])
+        sc = rng.choice([1.0, 3.0, 9.0])
+        Aq = matrix([rng.uniform(-sc, sc) for _ in range(n * n)], (n, n))
+        c = matrix([rng.uniform(-1.5, 1.5) for _ in range(n)])
+        cols = []
+        for j in range(n):
+            col = [rng.uniform(-1, 1) for _ in range(ml)]
+            col += [rng.uniform(-1, 1) for _ in range(mq)]
+            S_ = [[0.0] * ms for _ in range(ms)]
+            for a in range(ms):
+                for b in range(a, ms):
+                    v = rng.uniform(-4, 4); S_[a][b] = v; S_[b][a] = v
+            col += [S_[a][b] for b in range(ms) for a in range(ms)]
+            cols.append(col)
+        G = matrix(cols)
+        h = [2.0] * ml + ([3.0] + [0.0] * (mq - 1) if mq else [])
+        h += [2.0 if a == b else 0.0 for b in range(ms) for a in range(ms)]
+        h = matrix(h)
+        dims = {'l': ml, 'q': [mq] if mq else [], 's': [ms]}
+        def F(x=None, z=None, Aq=Aq, n=n):
+            if x is None: return 1, matrix(0.0, (n, 1))
+            y = Aq * x
+            f = matrix(sum(y ** 4) - 1.0); Df = (Aq.T * (4 * y ** 3)).T
+            if z is None: return f, Df
+            return f, Df, z[0] * (Aq.T * spdiag(12 * y ** 2) * Aq)
+        fac = misc.kkt_ldl(G, dims, matrix(0.0, (0, n)), 1)
+        seen = []
+        def kkt(x, znl, W, fac=fac, F=F):
+            seen.append({k: (+v if hasattr(v, 'size') else [(+a if hasattr(a, 'size') else a) for a in v]) for k, v in W.items()})
+            f, Df, H = F(x, znl)
+            return fac(W, H, Df)
+        try: quiet(solvers.cpl, c, F, G, h, dims, kktsolver=kkt, options={'show_progress': False, 'maxiters': 60})
+        except Exception: pass
+        for k, W in enumerate(seen):
+            evals += 1
+            for a, b in zip(W['dnl'], W['dnli']):
+                if not a > 0 or abs(a * b - 1) > 1e-9:
+                    ctx.violation('c07:scaling-invariant:cpl:dnl', 'scaling from cpl (call %d) violates dnl*dnli = 1' % k, {'dims': dims}); break
+            check_W(ctx, cvxopt, W, None, None, None, dims, 'cpl', k)
+    ctx.cov.update({'evaluations': evals, 'distinct_nontrivial': len(distinct), 'cpl_solves_with_user_kktsolver': ncpl,
                     'rule': '%d KKT systems (integer G of full column rank, A of full row rank, optional P = B\'B, random cone structure, dense/sparse) x every '
                             'factory the structure admits x histories of 1-3 scalings on the same factory object x 1-2 right-hand sides: residual of the '
                             'documented block system, mutual agreement; invariants of compute_scaling and of every W passed to a user kktsolver in %d solves' % (nsys, nsolve)})
